@@ -44,12 +44,87 @@ func c06Restore(c *Ctx) {
 		if len(dps) != 1 {
 			c.R.Checkf(rule, "decrypt-site", c.pos(f.Pos()), false, "expected one DecryptQuic_ call in sniffQuicBlock, found %d", len(dps))
 		} else {
+			// Saves, found structurally (no variable names): a scalar save  X := B[k]  and a copy-save
+			// copy(P, B[e:])  into a buffer P that does not alias B (P is defined by a call: make / pool.Get).
+			type save struct {
+				val   types.Object // X or P
+				where string       // rendered B[k] / B[e:]
+				node  ast.Node
+			}
+			var scalarSaves, copySaves []save
+			definedByCall := func(obj types.Object) bool {
+				ok := false
+				ast.Inspect(f.Body, func(m ast.Node) bool {
+					if as, isAs := m.(*ast.AssignStmt); isAs && len(as.Lhs) == len(as.Rhs) {
+						for i, l := range as.Lhs {
+							if id, isId := l.(*ast.Ident); isId && info.ObjectOf(id) == obj {
+								_, isCall := ast.Unparen(as.Rhs[i]).(*ast.CallExpr)
+								ok = isCall
+							}
+						}
+					}
+					return true
+				})
+				return ok
+			}
+			ast.Inspect(f.Body, func(m ast.Node) bool {
+				switch x := m.(type) {
+				case *ast.FuncLit:
+					return false
+				case *ast.AssignStmt:
+					if len(x.Lhs) == 1 && len(x.Rhs) == 1 {
+						if ix, ok := ast.Unparen(x.Rhs[0]).(*ast.IndexExpr); ok {
+							if id, ok := x.Lhs[0].(*ast.Ident); ok {
+								if _, isSlice := info.TypeOf(ix.X).Underlying().(*types.Slice); isSlice {
+									scalarSaves = append(scalarSaves, save{info.ObjectOf(id), core.ExprStr(ix), x})
+								}
+							}
+						}
+					}
+				case *ast.CallExpr:
+					if id, ok := x.Fun.(*ast.Ident); ok && id.Name == "copy" && len(x.Args) == 2 {
+						if dst, ok := ast.Unparen(x.Args[0]).(*ast.Ident); ok && definedByCall(info.ObjectOf(dst)) {
+							if _, isSl := ast.Unparen(x.Args[1]).(*ast.SliceExpr); isSl {
+								copySaves = append(copySaves, save{info.ObjectOf(dst), core.ExprStr(x.Args[1]), x})
+							}
+						}
+					}
+				}
+				return true
+			})
 			restoresFirst := func(body ast.Node) bool {
-				return strings.Contains(core.FullStr(body), "header[0] = firstByte")
+				hit := false
+				ast.Inspect(body, func(m ast.Node) bool {
+					if as, ok := m.(*ast.AssignStmt); ok && len(as.Lhs) == 1 && len(as.Rhs) == 1 {
+						if id, ok := ast.Unparen(as.Rhs[0]).(*ast.Ident); ok {
+							for _, sv := range scalarSaves {
+								if info.ObjectOf(id) == sv.val && core.ExprStr(as.Lhs[0]) == sv.where {
+									hit = true
+								}
+							}
+						}
+					}
+					return true
+				})
+				return hit
 			}
 			restoresPN := func(body ast.Node) bool {
-				s := core.FullStr(body)
-				return strings.Contains(s, "copy(header[boundary-quicutils.MaxPacketNumberLength:], rawPacketNumber)")
+				hit := false
+				ast.Inspect(body, func(m ast.Node) bool {
+					if call, ok := m.(*ast.CallExpr); ok {
+						if id, ok := call.Fun.(*ast.Ident); ok && id.Name == "copy" && len(call.Args) == 2 {
+							if src, ok := ast.Unparen(call.Args[1]).(*ast.Ident); ok {
+								for _, sv := range copySaves {
+									if info.ObjectOf(src) == sv.val && core.ExprStr(call.Args[0]) == sv.where {
+										hit = true
+									}
+								}
+							}
+						}
+					}
+					return true
+				})
+				return hit
 			}
 			isRestoreDefer := func(n ast.Node) bool {
 				ds, ok := n.(*ast.DeferStmt)
@@ -77,13 +152,29 @@ func c06Restore(c *Ctx) {
 			}
 			c.R.Checkf(rule, "header-bytes-restored-on-every-exit", c.pos(dps[0].Node().Pos()), ok, "%s", how)
 			// saves precede
-			saveFirst := func(n ast.Node) bool { return strings.HasPrefix(core.ExprStr2(n), "firstByte := header[0]") }
+			contains := func(outer, inner ast.Node) bool { return inner.Pos() >= outer.Pos() && inner.End() <= outer.End() }
+			saveFirst := func(n ast.Node) bool {
+				for _, sv := range scalarSaves {
+					if contains(n, sv.node) {
+						return true
+					}
+				}
+				return false
+			}
 			savePN := func(n ast.Node) bool {
-				return strings.HasPrefix(core.ExprStr2(n), "copy(rawPacketNumber, header[boundary-quicutils.MaxPacketNumberLength:])")
+				if _, isDefer := n.(*ast.DeferStmt); isDefer {
+					return false
+				}
+				for _, sv := range copySaves {
+					if contains(n, sv.node) {
+						return true
+					}
+				}
+				return false
 			}
 			_, _, b1 := g.ReachesAvoiding(g.Entry(), saveFirst, dec)
 			_, _, b2 := g.ReachesAvoiding(g.Entry(), savePN, dec)
-			c.R.Checkf(rule, "header-bytes-saved-before-decrypt", c.pos(dps[0].Node().Pos()), !b1 && !b2, "the first byte and the packet-number bytes are saved before DecryptQuic_ runs")
+			c.R.Checkf(rule, "header-bytes-saved-before-decrypt", c.pos(dps[0].Node().Pos()), !b1 && !b2, "the first byte (scalar save) and the packet-number bytes (copied into a buffer that does not alias the header: %d copy-save(s)) are saved before DecryptQuic_ runs", len(copySaves))
 		}
 	}
 	// in-place writers through parameters in quicutils / sniffing
